@@ -64,6 +64,32 @@ var baselineTypes = func() map[string]bool {
 	return m
 }()
 
+// baselineFields: pkg.Type.Field of every struct field at the pinned commit.
+var baselineFields = func() map[string]bool {
+	m := map[string]bool{}
+	for _, l := range strings.Split(baselineFuncsTxt, "\n") {
+		if strings.HasPrefix(l, "field:") {
+			m[strings.TrimPrefix(l, "field:")] = true
+		}
+	}
+	return m
+}()
+
+// isBaselineField: the field exists in the reference tree (rules about "every setting" range over those: a field
+// added by a new feature is that feature's business).
+func isBaselineField(f *types.Var) bool {
+	if f == nil || f.Pkg() == nil {
+		return false
+	}
+	for tn := range baselineTypes {
+		if strings.HasPrefix(tn, shortName(f.Pkg().Path())+".") && baselineFields[tn+"."+f.Name()] {
+			// the owner is not recorded on a types.Var: accept when any reference struct of the package has it
+			return true
+		}
+	}
+	return false
+}
+
 // baselineClosures: "function\tvariable" for every local closure variable of the pinned commit (part of the reference).
 var baselineClosures = func() map[string]bool {
 	m := map[string]bool{}
@@ -134,6 +160,8 @@ type inliner struct {
 	stuck   map[string]bool // short names of helpers that could not be fully inlined (left alone afterwards)
 	notes   []string
 	inlined map[string]int
+	// helpers with callers in other packages that were already mentioned in the notes
+	crossNoted map[string]bool
 	// per call: imports of the callee whose name is shadowed at the call site -> alias under which the caller's
 	// file imports the package again
 	alias map[*types.PkgName]string
@@ -851,6 +879,7 @@ func (in *inliner) round() (map[string][]textEdit, bool) {
 		}
 	}
 	refused := map[*types.Func]string{}
+	crossPkg := map[*types.Func]bool{}
 	done := map[*types.Func]int{}
 	// local closures: same treatment, keyed by their variable
 	clos := in.closureCandidates()
@@ -1019,7 +1048,9 @@ func (in *inliner) round() (map[string][]textEdit, bool) {
 				}
 				c := cands[callee]
 				if c.pkg != p {
-					refused[callee] = "called from another package"
+					// a call from another package stays a call (the body may name unexported things); the helper is
+					// still inlined at the call sites of its own package and kept for this one
+					crossPkg[callee] = true
 					return true
 				}
 				// inside a helper that is being removed: nothing to do
@@ -1055,6 +1086,16 @@ func (in *inliner) round() (map[string][]textEdit, bool) {
 	}
 	for f, n := range done {
 		in.inlined[funcShortName(f)] += n
+	}
+	for f := range crossPkg {
+		name := funcShortName(f)
+		if !in.crossNoted[name] {
+			if in.crossNoted == nil {
+				in.crossNoted = map[string]bool{}
+			}
+			in.crossNoted[name] = true
+			in.notes = append(in.notes, fmt.Sprintf("helper %s (%s) is not in the reference table: inlined at the call sites of its own package, kept as a function for its callers in other packages", name, in.w.Pos(cands[f].fd.Pos())))
+		}
 	}
 	for f, why := range refused {
 		name := funcShortName(f)
